@@ -10,7 +10,7 @@ from . import c16
 
 ID = "C12"
 TECHNIQUE = "effect whitelist (K4), control dependence of every destructive call on its guard (K2), hash-comparison must-pass-through (K1), helper-file/conflict pairing (K7) (ast)"
-FLOOR = 14
+FLOOR = 19
 TR = "breezy/transform.py"
 WT = "breezy/bzr/workingtree.py"
 MG = "breezy/merge.py"
